@@ -11,7 +11,7 @@ Local Open Scope Z_scope.
 Theorem C18_codec :
   (forall v, - 2 ^ 63 <= v < 2 ^ 63 -> int64_of_be (be_of_int64 v) = v) /\
   (forall v, - 2 ^ 31 <= v < 2 ^ 31 -> int32_of_be (be_of_int32 v) = v).
-Proof. split; [exact codec64 | exact codec32]. Qed.
+Proof. exact (conj codec64 codec32). Qed.
 Print Assumptions C18_codec.
 
 (* For EVERY history (requests of all five kinds over arbitrary UIDs - accepted and rejected -,
@@ -65,7 +65,7 @@ Theorem C18_persist :
   | Ok q => Ok (fst q, drop_obreopen (snd q))
   | Panic => Panic
   end.
-Proof. split; [reflexivity | exact persist]. Qed.
+Proof. exact (conj (fun s => eq_refl) persist). Qed.
 Print Assumptions C18_persist.
 
 (* No store at all - hence no record the API can create - makes AuthenticateUser,
@@ -79,7 +79,7 @@ Theorem C18_no_panic :
    list_all true s <> Panic /\
    (forall l, upload true now s l <> Panic)) /\
   (forall ops, exists q, run true now s ops = Ok q).
-Proof. intros now s. split; [exact (no_panic_fixed now s) | intros ops; exact (run_total now ops s)]. Qed.
+Proof. exact (fun now s => conj (no_panic_fixed now s) (fun ops => run_total now ops s)). Qed.
 Print Assumptions C18_no_panic.
 
 (* F7 (repaired in /repo by cd5140b): with the decoder in its earlier shape a record created
@@ -140,7 +140,7 @@ Proof. exact example_positive_rates. Qed.
 Theorem C18_patched_no_panic :
   (forall now s u, exists c, connect true true now s u = Ok c) /\
   (forall now s u c, connect false true now s u = Ok c -> connect true true now s u = Ok c).
-Proof. split; [exact connect_guarded_total | exact connect_guard_agree]. Qed.
+Proof. exact (conj connect_guarded_total connect_guard_agree). Qed.
 Print Assumptions C18_patched_no_panic.
 
 (* Observation O5 (not a violation): SessionsCap -1 is shown as -1 and enforced as 2^32-1. *)
